@@ -21,7 +21,7 @@ Section Cor.
 
   (** ** The declarative semantics only looks at the values of the selection and prune functions *)
   Lemma walk_ext : forall (p1 p2 : elem -> option bool) mn mx, (forall e, p1 e = p2 e) ->
-    forall t rel abs d, walk p1 mn mx t rel abs d = walk p2 mn mx t rel abs d.
+    forall t rel abs d, walk O p1 mn mx t rel abs d = walk O p2 mn mx t rel abs d.
   Proof.
     intros p1 p2 mn mx Hp. induction t as [c|es IH| |t IH] using tree_ind'; intros rel abs d; try reflexivity.
     - rewrite !walk_Dir. induction es as [|p es IHes]; [reflexivity|]. inversion IH as [|? ? Hh Ht]; subst.
@@ -34,12 +34,12 @@ Section Cor.
   Proof. intros s1 s2 H. induction l as [|e l IH]; cbn; [reflexivity | rewrite H, IH; reflexivity]. Qed.
 
   Lemma spec_files_ext : forall d a c s1 s2 p1 p2, (forall e, s1 e = s2 e) -> (forall e, p1 e = p2 e) ->
-    spec_files (SModel d a c s1 p1) = spec_files (SModel d a c s2 p2).
+    spec_files O (SModel d a c s1 p1) = spec_files O (SModel d a c s2 p2).
   Proof.
     intros d a c s1 s2 p1 p2 Hs Hp. unfold spec_files. cbn [sm_cfg sm_dir sm_abs sm_prune sm_sel].
     destruct c as [|mn mx].
     - apply strict_filter_ext. exact Hs.
-    - rewrite (walk_ext p1 p2 mn mx Hp). destruct (walk p2 mn mx d [] a 0); [apply strict_filter_ext; exact Hs | reflexivity].
+    - rewrite (walk_ext p1 p2 mn mx Hp). destruct (walk O p2 mn mx d [] a 0); [apply strict_filter_ext; exact Hs | reflexivity].
   Qed.
 
   Lemma sem_fsm_ext : forall m d a c s1 s2 p1 p2, (forall e, s1 e = s2 e) -> (forall e, p1 e = p2 e) ->
@@ -88,9 +88,9 @@ Proof.
   - reflexivity.
 Qed.
 
-Theorem files_sub_set : forall scandir M f,
-  files scandir (sub_set M f) = let (items, er) := files scandir M in filter_stream f items er.
+Theorem files_sub_set : forall scandir (O : oracles) M f,
+  files scandir O (sub_set M f) = let (items, er) := files scandir O M in filter_stream f items er.
 Proof.
-  intros scandir [d a c s p] f. unfold files, sub_set. cbn [m_cfg m_prune m_dir m_abs m_sel].
-  destruct (generate scandir c p d a) as [items er]. destruct s as [g|]; [apply filter_stream_conj | reflexivity].
+  intros scandir O [d a c s p] f. unfold files, sub_set. cbn [m_cfg m_prune m_dir m_abs m_sel].
+  destruct (generate scandir O c p d a) as [items er]. destruct s as [g|]; [apply filter_stream_conj | reflexivity].
 Qed.
